@@ -121,7 +121,13 @@ pub fn triple() -> BoxedStrategy<[f32; 3]> {
         1 => Just(1000u32),
         10 => 1u32..=3000,
     ];
-    (one.clone(), one.clone(), one).prop_map(|(a, b, c)| [milli_f32(a), milli_f32(b), milli_f32(c)]).boxed()
+    // (the all-zero triple - "no resources, no credit" - and the forced shape (1, 0, 0) are values of their own)
+    prop_oneof![
+        1 => Just([0.0f32, 0.0, 0.0]),
+        1 => Just([1.0f32, 0.0, 0.0]),
+        22 => (one.clone(), one.clone(), one).prop_map(|(a, b, c)| [milli_f32(a), milli_f32(b), milli_f32(c)]),
+    ]
+    .boxed()
 }
 
 /// a triple whose ren + nren is strictly positive (needed where a share ren/(ren+nren) is used)
